@@ -4,6 +4,7 @@ import (
 	"context"
 
 	"github.com/ipfs/go-cid"
+	cidlink "github.com/ipld/go-ipld-prime/linking/cid"
 	"github.com/libp2p/go-libp2p/core/peer"
 )
 
@@ -69,5 +70,60 @@ func VerifC01_ConstructedEntriesSync() {
 		}
 	}
 	verif_Assert(s.GetLatestSync(w.pinfo.ID) == nil, "an entries sync does not change the latest-synced advertisement")
+	verif_Assert(s.Close() == nil, "Close succeeds")
+}
+
+// C01, stop point supplied by the application (WithLastKnownSync): when the
+// subscriber has no latest-synced advertisement of its own for a publisher it
+// asks the application's function; the first sync then stops at (excludes) that
+// advertisement, requests nothing at or beyond it, and records the head. A
+// function that knows nothing (false, or an undefined CID) means: no stop.
+func VerifC01_LastKnownSyncIsTheStopPoint() {
+	n := 3 + verif_Tier()
+	w := newFullStack(n, 0, -1, 16)
+	defer w.restore()
+	chain := w.chain
+	known := verif_Choose("lastKnownPosition", 1, n) // n: the application knows nothing
+	answer := verif_Choose("unknownAnsweredAs", 0, 1)
+	asked := 0
+	var log []cid.Cid
+	s, err := NewSubscriber(nil, fsLsys(w.st), StrictAdsSelector(true), RecvAnnounce(""),
+		BlockHook(func(p peer.ID, c cid.Cid, a SegmentSyncActions) { log = append(log, c) }),
+		WithLastKnownSync(func(p peer.ID) (cid.Cid, bool) {
+			asked++
+			verif_Assert(p == w.pinfo.ID, "the application is asked about the publisher being synced")
+			if known < n {
+				return chain[known], true
+			}
+			if answer == 0 {
+				return cid.Undef, false
+			}
+			return cid.Undef, true
+		}))
+	verif_Assert(err == nil && s != nil, "a subscriber is created from valid options")
+	if s == nil {
+		return
+	}
+	announced := verif_Bool("announced")
+	if announced {
+		evch, _ := s.OnSyncFinished()
+		verif_Assert(s.Announce(context.Background(), chain[0], w.pinfo) == nil, "the announcement is accepted")
+		ev := <-evch
+		verif_Assert(ev.Err == nil && ev.Cid == chain[0] && ev.Count == known, "the notification counts the blocks down to the last known advertisement")
+	} else {
+		got, serr := s.SyncAdChain(context.Background(), w.pinfo)
+		verif_Assert(serr == nil && got == chain[0], "the sync of the queried head succeeds")
+	}
+	verif_Reach("synced")
+	verif_Assert(asked > 0, "the application's function is consulted when nothing is recorded yet")
+	verif_Assert(len(log) == known, "exactly the blocks newer than the last known advertisement are reported")
+	for i := 0; i < known && i < len(log); i++ {
+		verif_Assert(log[i] == chain[i], "newest to oldest")
+	}
+	for i := known; i < n; i++ {
+		verif_Assert(w.requested[i] == 0, "the stop block and anything older are never requested")
+	}
+	l := s.GetLatestSync(w.pinfo.ID)
+	verif_Assert(l != nil && l.(cidlink.Link).Cid == chain[0], "the head is recorded as latest-synced")
 	verif_Assert(s.Close() == nil, "Close succeeds")
 }
